@@ -127,7 +127,16 @@ type c10ReaderObs struct {
 }
 
 func c10ReaderCase(id int, input string) (string, c10ReaderObs) {
+	return c10ReaderCaseChunked(id, input, 0)
+}
+
+// chunk = 0: one piece (io.ReadAll); chunk > 0: ContentReader.Read called with a destination buffer of that many bytes.
+// The model knows nothing about chunking: the observed bytes must be the same for every chunk size.
+func c10ReaderCaseChunked(id int, input string, chunk int) (string, c10ReaderObs) {
 	res, err := parser.VerifReadAll([]byte(input))
+	if chunk > 0 {
+		res, err = parser.VerifReadChunked([]byte(input), chunk)
+	}
 	_, class := c10Excluded([]byte(input))
 	obs := c10ReaderObs{Input: input, Out: string(res.Out), Lines: res.Lines, Lineno: res.Lineno,
 		Flags: [4]bool{res.SkipAll, res.SkipNext, res.AutoReset, res.InBegin}, Class: class}
@@ -294,6 +303,39 @@ func runC10(args []string) int {
 			lines = append(lines, l)
 		}
 		addReader("random", c10Join(lines, r.Intn(4) > 0))
+	}
+	// 5. the bytes handed to yaml must not depend on how the consumer chunks its reads (yaml.v3 reads 512 bytes at a time,
+	// io.ReadAll grows from 512): files with CRLF / lone CR / LF line endings of 300-1600 bytes, read through destination
+	// buffers of small, odd and boundary sizes; the model has no notion of chunking, so every observation must equal r_yaml
+	chunkSizes := []int{1, 2, 3, 5, 7, 64, 255, 511, 512, 513, 1024}
+	nchunk := 12
+	if n >= 1000 {
+		nchunk = 120
+	}
+	for i := 0; i < nchunk; i++ {
+		var b strings.Builder
+		target := 300 + r.Intn(1300)
+		for b.Len() < target {
+			var l string
+			switch x := r.Intn(10); {
+			case x < 5:
+				l = pick(r, c10Core)
+			case x < 9:
+				l = pick(r, full)
+			default:
+				l = strings.Repeat("x", r.Intn(40))
+			}
+			b.WriteString(l)
+			b.WriteString(pick(r, []string{"\r\n", "\r\n", "\r\n", "\n", "\r\r\n"}))
+		}
+		input := b.String()
+		for _, cs := range []int{pick(r, chunkSizes), pick(r, chunkSizes), 512} {
+			term, obs := c10ReaderCaseChunked(id, input, cs)
+			cw.add(term)
+			rep.hist(fmt.Sprintf("reader:chunked-read-%d", cs))
+			rep.count(fmt.Sprintf("reader-chunk%d:%s", cs, input), obs.Out != input)
+			id++
+		}
 	}
 	// Phase B (adds one TPair case per known-class oracle failure: is it explained by the reader model?)
 	c10Oracle(r, rep, norac, cw, &id)
